@@ -2,6 +2,7 @@ package main
 
 import (
 	"fmt"
+	"sort"
 	"go/token"
 	"go/types"
 	"regexp"
@@ -227,7 +228,17 @@ func (u *Unit) enterLoopHead(st *State, fr *Frame, head *ssa.BasicBlock, li *loo
 		u.work = saved
 	}
 	// havoc
+	var wlocals []*ssa.Alloc
 	for a := range ws.locals {
+		wlocals = append(wlocals, a)
+	}
+	sort.Slice(wlocals, func(i, j int) bool {
+		if wlocals[i].Pos() != wlocals[j].Pos() {
+			return wlocals[i].Pos() < wlocals[j].Pos()
+		}
+		return wlocals[i].Name() < wlocals[j].Name()
+	})
+	for _, a := range wlocals {
 		if cells, ok := fr.locals[a]; ok {
 			nv := u.freshVal(st, "lv_"+a.Comment, derefType(a.Type()))
 			_ = cells
@@ -237,7 +248,7 @@ func (u *Unit) enterLoopHead(st *State, fr *Frame, head *ssa.BasicBlock, li *loo
 			}
 		}
 	}
-	for k := range ws.whole {
+	for _, k := range sortedKeys(ws.whole) {
 		parts := strings.SplitN(k, "|", 2)
 		u.heapHavoc(st, parts[0], parts[1])
 		if st.discover != nil {
@@ -284,7 +295,12 @@ func (u *Unit) enterLoopHead(st *State, fr *Frame, head *ssa.BasicBlock, li *loo
 	for _, p := range phis {
 		fr.regs[p] = u.freshVal(st, "phi_"+p.Name(), p.Type())
 	}
+	var witers []*ssa.Range
 	for rg := range ws.iters {
+		witers = append(witers, rg)
+	}
+	sort.Slice(witers, func(i, j int) bool { return witers[i].Pos() < witers[j].Pos() })
+	for _, rg := range witers {
 		if _, ok := st.iters[rg]; ok {
 			np := u.fresh(st, "itpos", "Int")
 			if rv, ok := fr.regs[rg]; ok && rv.Inner != nil {
